@@ -128,21 +128,44 @@ Proof.
       destruct (S c) as [S1 [S2 _]]. rewrite S1, S2. destruct C2 as [K|K]; [left; exact K | right; lia].
 Qed.
 
-Lemma unwind_frames : forall r stk cs below,
-  unwind r stk = Some (cs, below) ->
-  (forall f, In f below -> In f stk) /\
-  (forall r', count (runish r') stk = b2n (Nat.eqb r' r) + count (runish r') below).
+Lemma do_fail_armed : forall s r stk retry s1 st sp others F0,
+  do_fail s r stk retry = Some (s1, st, sp) ->
+  (forall f, In f (stk ++ others) -> In f F0 \/ (forall g rrs, fr_ok g rrs f)) ->
+  (forall r', count (runish r') F0 <= count (runish r') (stk ++ others)) ->
+  armed_on (s_nodes s) (s_rrs s) F0 -> armed_on (s_nodes s1) (s_rrs s1) (st ++ others ++ concat sp).
 Proof.
-  induction stk as [|h t IH]; simpl; intros cs below H; [discriminate|].
-  destruct h; try discriminate.
-  - destruct (Nat.eqb r r0) eqn:E; [|discriminate]. destruct (IH _ _ H) as [I1 I2].
-    split; [intros f Hf; right; apply I1; exact Hf | intros r'; simpl; apply I2].
-  - destruct (Nat.eqb r r0) eqn:E; [|discriminate].
-    destruct (unwind r t) as [[cs' b']|] eqn:U; [|discriminate]. inversion H; subst.
-    destruct (IH _ _ eq_refl) as [I1 I2].
-    split; [intros f Hf; right; apply I1; exact Hf | intros r'; simpl; apply I2].
-  - destruct (Nat.eqb r r0) eqn:E; [|discriminate]. inversion H; subst. apply Nat.eqb_eq in E. subst r0.
-    split; [intros f Hf; right; exact Hf | intros r'; simpl; unfold b2n; destruct (Nat.eqb r' r); reflexivity].
+  intros s r stk retry s1 st sp others F0 H Hf Hc Inv.
+  destruct (do_fail_spec _ _ _ _ _ _ _ H) as [cs [ks [below [term [y [U [N [Sl [R [Y1 [Y2 [Y3 [Y4 [Y5 [Y6 [Y7 [Y8 T]]]]]]]]]]]]]]]]].
+  destruct (unwind_split _ _ _ _ _ _ U) as [d [l [E [Fd [L _]]]]].
+  assert (Dr : forall r', count (runish r') d = 0) by (intros r'; apply (count_zero_forall _ unw_kind); [intros f Hf'; destruct f; simpl in *; try discriminate; reflexivity | exact Fd]).
+  assert (RC : forall r' cs0, count (runish r') (concat (map (fun c0 => [FRelEnter c0]) cs0)) = 0).
+  { intros r' cs0. induction cs0 as [|h t IH]; simpl; [reflexivity | exact IH]. }
+  assert (RI : forall f cs0, In f (concat (map (fun c0 => [FRelEnter c0]) cs0)) -> exists x, f = FRelEnter x).
+  { intros f cs0. induction cs0 as [|h t IH]; simpl; [intros []|]. intros [<-|Hf']; [eexists; reflexivity | apply IH; exact Hf']. }
+  assert (Sub : forall f, In f below -> In f stk) by (intros f Hf'; rewrite E; apply in_app_iff; right; right; exact Hf').
+  rewrite N, R.
+  assert (Fa : r_failed y = r_failed (getr s r) \/ r_failed y = true).
+  { destruct term; [destruct T as [_ [_ [_ [Q _]]]]; left; exact Q | destruct T as [_ [_ [[_ [_ [_ Q]]]|[_ [_ [_ Q]]]]]]; [left | right]; exact Q]. }
+  eapply armed_transfer; [apply same_ihr_refl | lia | apply same_rrs_setl | | | exact Inv].
+  - unfold getr in *. repeat split; [congruence | congruence | left; congruence | destruct Fa as [Q|Q]; [left | right]; congruence].
+  - intros f Hin. rewrite !in_app_iff in Hin. destruct Hin as [Hin|[Hin|Hin]].
+    + destruct term as [jid|]; [destruct T as [-> _] | destruct T as [-> _]]; simpl in Hin;
+        (destruct Hin as [<-|Hin]; [right; exact I | destruct (Hf f) as [Q|Q]; [apply in_app_iff; left; apply Sub; exact Hin | left; exact Q | right; apply Q]]).
+    + destruct (Hf f) as [Q|Q]; [apply in_app_iff; right; exact Hin | left; exact Q | right; apply Q].
+    + right. destruct term as [jid|].
+      * destruct T as [_ [-> _]]. destruct (RI _ _ Hin) as [x ->]. exact I.
+      * destruct T as [_ [_ [[_ [-> _]]|[_ [-> _]]]]].
+        -- rewrite concat_app in Hin. apply in_app_iff in Hin. destruct Hin as [Hin|[<-|[]]]; [destruct (RI _ _ Hin) as [x ->]; exact I | exact I].
+        -- destruct (RI _ _ Hin) as [x ->]. exact I.
+  - intros r' Hr' X1 X2. specialize (Hc r'). rewrite E in Hc. rewrite ?count_app in Hc. simpl in Hc. rewrite ?count_app, Dr in Hc.
+    rewrite ?count_app.
+    destruct term as [jid|]; simpl in L.
+    + subst l. destruct T as [-> [-> _]]. simpl in *. rewrite RC. lia.
+    + destruct L as [c ->]. simpl in Hc.
+      destruct T as [-> [_ [[_ [-> _]]|[_ [-> [_ Q]]]]]]; simpl; rewrite ?concat_app, ?count_app, RC; simpl.
+      * destruct (Nat.eqb r' r); lia.
+      * destruct (Nat.eqb r' r) eqn:Er; [|lia]. apply Nat.eqb_eq in Er. subst r'. exfalso.
+        rewrite nth_setl, Nat.eqb_refl in X2. apply Nat.ltb_lt in Hr'. rewrite Hr' in X2. simpl in X2. congruence.
 Qed.
 
 Lemma do_add_out_armed : forall s n to s1 sp,
@@ -395,47 +418,25 @@ Proof.
     destruct p as [|o q]; [discriminate|].
     assert (Fail : forall retry, do_fail s r (FScript r c q :: rest) retry = Some (s1, st, sp) ->
                    armed_on (s_nodes s1) (s_rrs s1) (st ++ others ++ concat sp)).
-    { intros retry HF. unfold do_fail in HF.
-      destruct (unwind r (FScript r c q :: rest)) as [[cs below]|] eqn:U; [|discriminate].
-      simpl in U. rewrite Nat.eqb_refl in U.
-      destruct (unwind_frames _ _ _ _ U) as [UF UC].
-      assert (RC : forall r' cs0, count (runish r') (concat (map (fun c0 => [FRelEnter c0]) cs0)) = 0).
-      { intros r' cs0. induction cs0 as [|h t IH]; simpl; [reflexivity | exact IH]. }
-      assert (RI : forall f cs0, In f (concat (map (fun c0 => [FRelEnter c0]) cs0)) -> exists x, f = FRelEnter x).
-      { intros f cs0. induction cs0 as [|h t IH]; simpl; [intros []|]. intros [<-|Hf]; [eexists; reflexivity | apply IH; exact Hf]. }
-      assert (FO : forall g' rrs' f, In f ((FUnlock r :: below) ++ others ++ concat (map (fun c0 => [FRelEnter c0]) cs) ++ [FRunWait r]) ->
-                   In f (FScript r c (o :: q) :: rest ++ others) \/ fr_ok g' rrs' f).
-      { intros g' rrs' f Hf. simpl in Hf. rewrite ?in_app_iff in Hf. simpl in Hf.
-        destruct Hf as [<-|[Hf|[Hf|[Hf|[<-|[]]]]]].
-        - right. exact I.
-        - left. right. apply in_app_iff. left. apply UF. exact Hf.
-        - left. right. apply in_app_iff. right. exact Hf.
-        - destruct (RI _ _ Hf) as [x ->]. right. exact I.
-        - right. exact I. }
-      destruct retry; inversion HF; subst; clear HF; simpl.
-      - (* retry: a new run is spawned *)
-        eapply armed_transfer; [ | | | | | exact Inv];
-          [ apply same_ihr_refl | lia | apply same_rrs_setl; repeat split; left; reflexivity | | ].
-        + intros f Hf. apply FO. rewrite concat_app in Hf. simpl in Hf. simpl. exact Hf.
-        + intros r' _ _ _. specialize (UC r'). simpl. rewrite ?count_app, ?concat_app, ?count_app, RC. simpl.
-          rewrite ?count_app in *. unfold b2n in UC. destruct (Nat.eqb r' r); simpl in *; lia.
-      - (* the rerunner has failed *)
-        eapply armed_transfer; [ | | | | | exact Inv];
-          [ apply same_ihr_refl | lia | apply same_rrs_setl; repeat split; (left; reflexivity) || (right; reflexivity) | | ].
-        + intros f Hf. apply FO. simpl. simpl in Hf. rewrite ?in_app_iff in *. simpl. tauto.
-        + intros r' Hr' _ X2. specialize (UC r'). simpl. rewrite ?count_app, RC. simpl.
-          rewrite ?count_app in *. unfold b2n in UC. destruct (Nat.eqb r' r) eqn:E; simpl in *; [|lia].
-          apply Nat.eqb_eq in E. subst r'. exfalso. rewrite nth_setl, Nat.eqb_refl in X2.
-          apply Nat.ltb_lt in Hr'. rewrite Hr' in X2. simpl in X2. discriminate. }
+    { intros retry HF. eapply do_fail_armed; [exact HF | | | exact Inv].
+      - intros f Hf. simpl in Hf. destruct Hf as [<-|Hf]; [right; intros; exact I | left; right; exact Hf].
+      - intros r'. simpl. lia. }
     destruct o.
     + inversion H; subst; clear H; simpl; armed_leaf Inv.
     + destruct (Nat.eqb arg 0); [|unfold alloc in H]; inversion H; subst; clear H; simpl; armed_leaf Inv.
     + destruct (Nat.eqb arg 0).
-      * destruct (cache_get (r_cache (getr s r)) key) as [child|]; [destruct (Nat.eqb child c); [discriminate|]|]; inversion H; subst; clear H; simpl; armed_leaf Inv.
+      * destruct (memb key (r_keys (getr s r))); [discriminate|]. inversion H; subst; clear H; simpl; armed_leaf Inv.
       * destruct (Nat.eqb arg 2); [inversion H; subst; clear H; simpl; armed_leaf Inv|].
         destruct (r_cancel (getr s r)); [|discriminate]. eapply Fail; eauto.
     + destruct (Nat.eqb arg 0); [inversion H; subst; clear H; simpl; armed_leaf Inv | eapply Fail; eauto].
     + destruct (Nat.eqb arg 0); [inversion H; subst; clear H; simpl; armed_leaf Inv | eapply Fail; eauto].
+    + (* OPar *)
+      inversion H; subst; clear H. simpl.
+      eapply armed_transfer; [ | | | | | exact Inv]; [apply same_ihr_refl | lia | apply same_rrs_refl | | intros r' _ _ _; cnt3].
+      intros f Hf. simpl in Hf. rewrite ?in_app_iff in Hf. destruct Hf as [<-|[<-|[Hf|[Hf|Hf]]]];
+        [right; exact I | right; exact I | left; right; apply in_app_iff; tauto | left; right; apply in_app_iff; tauto |].
+      right. apply in_concat in Hf. destruct Hf as [t [Ht Hf]]. destruct (branch_tasks_in _ _ _ _ _ _ Ht) as [idx [b [_ ->]]].
+      simpl in Hf. destruct Hf as [<-|[<-|[<-|[]]]]; exact I.
   - (* FDepAdd *)
     destruct (do_add_out s res c) as [[s2 sp2]|] eqn:A; [|discriminate]. inversion H; subst; clear H.
     destruct (do_add_out_armed _ _ _ _ _ A) as [S [R Sp]]. rewrite R.
@@ -472,6 +473,19 @@ Proof.
         [left; right; apply in_app_iff; tauto | left; right; apply in_app_iff; tauto |].
       destruct (Sp f Hf) as [x [->| ->]]; right; exact I.
     + cnt3.
+  - (* FCacheGet *)
+    destruct (cache_get (r_cache (getr s r)) key) as [child|]; [destruct (Nat.eqb child c); [discriminate|]|];
+      inversion H; subst; clear H; simpl; armed_leaf Inv.
+  - (* FKeyUnlock *) inversion H; subst; clear H. simpl. armed_leaf Inv.
+  - (* FJoin *)
+    destruct (nth jid (s_joins s) (0, false)) as [nb failed]. destruct (Nat.eqb nb 0); [|discriminate].
+    destruct failed; [|inversion H; subst; clear H; armed_leaf Inv].
+    eapply do_fail_armed; [exact H | | | exact Inv].
+    + intros f Hf. left. right. exact Hf.
+    + intros r'. simpl. lia.
+  - (* FBranchBegin *) inversion H; subst; clear H. armed_leaf Inv.
+  - (* FBranchEnd *)
+    destruct (nth jid (s_joins s) (0, false)) as [nb failed]. inversion H; subst; clear H. simpl. armed_leaf Inv.
   - (* FRunEnd: publish *)
     inversion H; subst; clear H. simpl.
     destruct Inv as [A [B C]].
